@@ -63,6 +63,11 @@ func runIdentity(w *World, rs *RunSpec) {
 		}
 		p.OptChannel = true
 		p.OptPeer = true
+		if len(plans) == 0 && c.Intn(2, "idbare") == 1 {
+			// one RPC without any request metadata: its handler must see
+			// none - in particular not the tunnel-opening call's
+			p.Bare, p.NoOutgoingMD, p.ReqMD, p.Creds = true, true, nil, nil
+		}
 		// the handler probes (and mutates) at a random point of its script
 		at := c.Intn(len(p.Handler), "probeat")
 		ops := append([]Op{}, p.Handler[:at]...)
@@ -154,6 +159,22 @@ func OracleC17(w *World, h *History) {
 			}
 			h.Derived["probe.identity_probes"]++
 			if hi, ok := o.Res.Extra["info"].(*HandlerInfo); ok && hi != nil {
+				// the RPC's own request metadata, not the tunnel's
+				expReq := metadata.MD{}
+				if !p.Bare && !p.NoOutgoingMD {
+					for k, v := range p.ReqMD {
+						expReq[k] = append([]string(nil), v...)
+					}
+					expReq.Set("sim-rpc", fmt.Sprint(p.ID))
+				}
+				if p.Creds != nil {
+					for k, v := range p.Creds.MD {
+						expReq.Append(k, v)
+					}
+				}
+				if !mdEqual(expReq, hi.ReqMD) {
+					w.AddViolation("C17", "request-md-mismatch", fmt.Sprintf("rpc %d: the handler's metadata.FromIncomingContext = %s, the caller attached %s (the tunnel was opened with %s)", id, mdString(hi.ReqMD), mdString(expReq), mdString(exp)), det, o.Ret)
+				}
 				// handler side
 				if !hi.HasTunnelMD || !mdEqualIgnoring(hi.TunnelMD, exp) {
 					w.AddViolation("C17", "tunnel-md-mismatch", fmt.Sprintf("rpc %d: the handler's TunnelMetadataFromIncomingContext = %s (ok=%v), the tunnel that carried the RPC (tunnel %d) was opened with %s", id, mdString(hi.TunnelMD), hi.HasTunnelMD, carried.Idx, mdString(exp)), det, o.Ret)
